@@ -36,6 +36,20 @@ def four_index_events(n):
     return evs
 
 
+def four_index_overwrite_events(n):
+    """Assignment into an array that already holds data: exactly the eight positions take the new value (also when it is zero)."""
+    from iodata.utils import set_four_index_element
+    evs = []
+    for q in itertools.product(range(n), repeat=4):
+        for value in (0.0, -2.25):
+            a = np.full((n, n, n, n), 3.0)
+            set_four_index_element(a, *q, value)
+            changed = [[int(x) for x in idx] for idx in np.argwhere(a != 3.0)]
+            ok_val = bool(np.all(a[a != 3.0] == value))
+            evs.append({"op": "FourIndex", "n": n, "q": list(q), "changed": changed if ok_val else [], "prefilled": True, "value": value})
+    return evs
+
+
 def strbool_events(rng, nrandom):
     from iodata.utils import strtobool
     words = ["y", "yes", "t", "true", "on", "1", "n", "no", "f", "false", "off", "0"]
@@ -80,29 +94,40 @@ def volume_events(rmax, rng, cap):
     return evs
 
 
-def naturals_event(D, S, spec, den):
-    """D, S: integer matrices (lists); spec: integer spectrum of D S; occupations = spec/den."""
-    from iodata.utils import derive_naturals
+def scaled(D, S, den, ks):
+    """The machine state (D, S) in the basis whose i-th function is multiplied by 10^-ks[i]: S -> T S T, D -> T^-1 D T^-1.
+    This is the congruence step of Kernels.tla with E = T^-1 (rational diagonal), so D S keeps its spectrum; the overlap becomes
+    ill-conditioned but stays symmetric positive definite."""
     Df = np.array(D, dtype=float) / den
     Sf = np.array(S, dtype=float)
-    ev = {"op": "Naturals", "D": D, "S": S, "spec": list(spec), "den": den}
+    if ks is None:
+        return Df, Sf, np.ones(len(D))
+    t = 10.0 ** (-np.array(ks, dtype=float))
+    return Df / np.outer(t, t), Sf * np.outer(t, t), t
+
+
+def naturals_event(D, S, spec, den, ks=None):
+    """D, S: integer matrices (lists); spec: integer spectrum of D S; occupations = spec/den."""
+    from iodata.utils import derive_naturals
+    Df, Sf, t = scaled(D, S, den, ks)
+    ev = {"op": "Naturals", "D": D, "S": S, "spec": list(spec), "den": den, "ks": list(ks or [])}
     try:
         coeffs, occs = derive_naturals(Df, Sf)
         want = np.sort(np.array(spec, dtype=float) / den)
-        scale = max(1.0, float(np.abs(Df).max()), float(np.abs(Sf).max())) ** 2
-        ev["occ_match"] = bool(np.allclose(np.sort(occs), want, atol=1e-8 * scale))
-        ev["orthonormal"] = bool(np.allclose(coeffs.T @ Sf @ coeffs, np.eye(len(D)), atol=1e-8 * scale))
-        ev["reconstruct"] = bool(np.allclose((coeffs * occs) @ coeffs.T, Df, atol=1e-7 * scale))
+        scale = max(1.0, float(np.abs(np.array(D)).max()) / den, float(np.abs(np.array(S)).max())) ** 2
+        ev["occ_match"] = bool(occs.shape == want.shape and np.allclose(np.sort(occs), want, atol=1e-7 * scale))
+        ev["orthonormal"] = bool(coeffs.shape == (len(D), len(D)) and np.allclose(coeffs.T @ Sf @ coeffs, np.eye(len(D)), atol=1e-8 * scale))
+        # compared in the unscaled basis
+        ev["reconstruct"] = bool(np.allclose(((coeffs * occs) @ coeffs.T) * np.outer(t, t), np.array(D, dtype=float) / den, atol=1e-6 * scale))
     except Exception:  # noqa: BLE001
         ev["occ_match"] = ev["orthonormal"] = ev["reconstruct"] = False
     return ev
 
 
-def checkdm_event(D, S, spec, den, eps, occ_max):
+def checkdm_event(D, S, spec, den, eps, occ_max, ks=None):
     from iodata.utils import check_dm
     K = 10**6
-    Df = np.array(D, dtype=float) / den
-    Sf = np.array(S, dtype=float)
+    Df, Sf, _t = scaled(D, S, den, ks)
     try:
         check_dm(Df, Sf, eps=eps, occ_max=occ_max)
         acc = True
@@ -143,6 +168,8 @@ def check(run: Run):
     events = []
     for n in range(1, run.pick(4, 6) + 1):
         events += four_index_events(n)
+    for n in range(1, run.pick(3, 5) + 1):
+        events += four_index_overwrite_events(n)
     events += strbool_events(rng, run.pick(300, 3000))
     events += volume_events(2, rng, run.pick(3000, 40000))
     # spec -> code: behaviours of the congruence machine
@@ -165,11 +192,16 @@ def check(run: Run):
         if sum(len(p[0]) for p in parts) > 12:
             continue
         items.append((block_diag([p[0] for p in parts]), block_diag([p[1] for p in parts]), [x for p in parts for x in p[2]], 2))
+    # the same states in badly scaled bases: valid overlaps with eigenvalues down to about 1e-9
+    for D, S, spec, den in items[:: max(1, len(items) // run.pick(200, 2000))]:
+        ks = [rng.choice([0, 0, 2, 3, 4]) for _ in D]
+        if any(ks):
+            items.append((D, S, spec, den, ks))
     for sub in pmap(_nat_batch, [items[i::16] for i in range(16)], chunksize=1):
         events += sub
-    for D, S, spec, den in items[:: max(1, len(items) // run.pick(300, 2000))]:
+    for it in items[:: max(1, len(items) // run.pick(300, 2000))] + [it for it in items if len(it) == 5][: run.pick(150, 1500)]:
         for eps, occ_max in ((1e-4, 1.0), (1e-4, 2.0), (0.3, 1.0), (1e-4, 1.5)):
-            events.append(checkdm_event(D, S, spec, den, eps, occ_max))
+            events.append(checkdm_event(it[0], it[1], it[2], it[3], eps, occ_max, it[4] if len(it) == 5 else None))
     reached = validate_traces(run, "Trace_Kernels", [[e] for e in events], chunk=3000)
     kinds = {}
     for e, r in zip(events, reached):
